@@ -185,10 +185,36 @@ func intrObserve(fr *frame, args []value) value {
 	i.noSpec("verifObserve")
 	e := obsEnt{label: args[0].(string)}
 	for _, a := range args[1].([]value) {
-		e.vals = append(e.vals, a.(iface))
+		it := a.(iface)
+		it.v = deepCopyObs(it.v) // the memory it aliases is rolled back at the end of the path
+		e.vals = append(e.vals, it)
 	}
 	i.obs = append(i.obs, e)
 	return nil
+}
+
+func deepCopyObs(v value) value {
+	switch x := v.(type) {
+	case []value:
+		out := make([]value, len(x))
+		for k := range x {
+			out[k] = deepCopyObs(x[k])
+		}
+		return out
+	case array:
+		out := make(array, len(x))
+		for k := range x {
+			out[k] = deepCopyObs(x[k])
+		}
+		return out
+	case structure:
+		out := make(structure, len(x))
+		for k := range x {
+			out[k] = deepCopyObs(x[k])
+		}
+		return out
+	}
+	return v
 }
 
 // obsTerms lists the symbolic terms inside observed values (in a fixed order).
@@ -373,6 +399,8 @@ func (i *interpreter) tapeFromModel(vals []sym.Val) []TapeEnt {
 				e.V = strconv.FormatInt(int64(v.U), 10)
 			case "bool":
 				e.V = strconv.FormatBool(v.U == 1)
+			case "rand.int":
+				e.V = strconv.FormatInt(int64(v.U), 10)
 			case "f64", "rand.f64":
 				if v.R != nil {
 					f, _ := v.R.Float64()
